@@ -417,3 +417,102 @@ func (x *gen) directedABA() {
 	c.exec("unblock")
 	c.exec("flush 6")
 }
+
+// directedXferJoint: a leader applies the entry that enters a joint configuration with automatic
+// leave while a leadership transfer to an unreachable node is pending (the proposal that leaves
+// the joint configuration is dropped then); the transfer times out; nothing else is proposed.
+func (x *gen) directedXferJoint() {
+	c := x.c
+	l := x.leader()
+	if l == nil || len(c.alive()) < 3 || c.base.Async {
+		x.idle()
+		return
+	}
+	c.exec("flush 4")
+	d := l.rn.VerifState()
+	if len(d.Config.Voters[1]) > 0 {
+		x.idle()
+		return
+	}
+	// a joint change with automatic leave: demote one follower and promote it again is not
+	// accepted in one change, so: add a learner id (or remove a learner) together with a no-op update
+	var t *Node
+	for _, n := range x.others(l.id) {
+		t = n
+	}
+	spec := fmt.Sprintf("v2:implicit:u%d", l.id)
+	c.exec(fmt.Sprintf("proposecc %d %s", l.id, spec))
+	// replicate and commit, but stop the leader right after it has applied the entry and before Advance
+	for r := 0; r < 6; r++ {
+		for _, n := range x.others(l.id) {
+			c.exec(fmt.Sprintf("process %d", n.id))
+		}
+		x.deliverAll()
+		for st := 0; st < 6; st++ {
+			if l.app.stage == 4 && l.app.rd != nil && len(l.app.rd.CommittedEntries) > 0 {
+				break
+			}
+			c.exec(fmt.Sprintf("sub %d", l.id))
+		}
+		if l.app.stage == 4 && l.app.rd != nil && len(l.app.rd.CommittedEntries) > 0 {
+			break
+		}
+	}
+	joint := func() bool {
+		if !l.alive || l.rn == nil {
+			return false
+		}
+		d := l.rn.VerifState()
+		return len(d.Config.Voters[1]) > 0 && d.Config.AutoLeave
+	}
+	if !(l.app.stage == 4 && joint()) {
+		c.exec("flush 5")
+		return
+	}
+	// the transfer target cannot be reached
+	x.isolate(t)
+	c.exec(fmt.Sprintf("transfer %d %d", l.id, t.id))
+	c.exec(fmt.Sprintf("sub %d", l.id)) // Advance: appliedTo -> the leave proposal is dropped
+	c.exec("unblock")
+	c.exec("flush 4")
+}
+
+// directedSoloRead (a single voter, asynchronous storage writes): the application applies a
+// committed entry while the hard state carrying that commit index is still queued; the node
+// crashes, restarts, becomes leader again and is asked for a read index before it has committed
+// anything in its new term.
+func (x *gen) directedSoloRead() {
+	c := x.c
+	l := x.leader()
+	if l == nil || !c.base.Async || c.base.Lease || len(c.alive()) != 1 {
+		x.idle()
+		return
+	}
+	d := l.rn.VerifState()
+	if len(d.Config.Voters[0]) != 1 || len(d.Config.Voters[1]) != 0 {
+		x.idle()
+		return
+	}
+	c.exec("flush 3")
+	c.exec(fmt.Sprintf("propose %d", l.id))
+	c.exec(fmt.Sprintf("sub %d", l.id))
+	for len(l.app.appendQ) > 0 && l.alive && !c.stopped {
+		c.exec(fmt.Sprintf("appendthread %d", l.id)) // the entry is durable, the node commits it
+	}
+	c.exec(fmt.Sprintf("sub %d", l.id)) // Ready: hard state {commit} to the append thread, the entry to the apply thread
+	for len(l.app.applyQ) > 0 && l.alive && !c.stopped {
+		c.exec(fmt.Sprintf("applythread %d", l.id))
+	}
+	c.exec(fmt.Sprintf("crash %d", l.id)) // the commit index was never written
+	c.exec(fmt.Sprintf("restart %d", l.id))
+	for i := 0; i < 2*l.cfg.ET+2 && !x.isLeader(l); i++ {
+		c.exec(fmt.Sprintf("tick %d", l.id))
+		if !x.isLeader(l) {
+			c.exec(fmt.Sprintf("process %d", l.id))
+		}
+	}
+	if x.isLeader(l) {
+		c.exec(fmt.Sprintf("readindex %d", l.id))
+	}
+	c.exec("flush 5")
+}
